@@ -543,6 +543,18 @@ func runC02(c *CaseCtx) *CaseResult {
 		// class collide on all four levels (circlehash and blake3 as they are, pooled digesters included)
 		cc.HipClasses = uint64(12 + r.Intn(120))
 		cc.Prof.KeySpace = 500
+		if c.Case%12 == 11 {
+			// two classes only: hundreds of keys collide on ALL levels (more than the default limit of 255 entries per
+			// first-level digest, which counts distinct second-level digests and therefore never applies here)
+			cc.HipClasses = 2
+			cc.Prof.KeySpace = 1500
+			cc.Prof.Sizes = "small"
+			cc.Prof.PContainer = 0
+			cc.Prof.BigKeys = false
+			cc.Ops = 1400
+			cc.Phases = scalePhases(cc.Ops, []Phase{{Name: "grow", Insert: 90, Set: 3, Remove: 2, Read: 5}, PhaseChurn, PhaseShrink}, []int{60, 25, 15})
+			cc.Mon.TreeEvery = 5
+		}
 	}
 	if c.Case%6 == 2 {
 		// "any hash distribution": moderately colliding digests (the systematic collision matrix is C12)
